@@ -41,7 +41,7 @@ OPERATORS = {
     "minItems": "len(data) >= k", "maxItems": "len(data) <= k",
     "minProperties": "len(data) >= k", "maxProperties": "len(data) <= k",
     "pattern": "k.match(data) is not None",
-    "uniqueItems": "len(set(map(to_hashable, data))) == len(data)",
+    "uniqueItems": "len(data) == len(set(map(to_hashable, data)))",  # canonical operand order (sa/canon.py)
 }
 FLIP = {ast.Lt: ">", ast.Gt: "<", ast.LtE: ">=", ast.GtE: "<=", ast.Eq: "==", ast.NotEq: "!="}
 SYM = {ast.Lt: "<", ast.Gt: ">", ast.LtE: "<=", ast.GtE: ">=", ast.Eq: "==", ast.NotEq: "!=", ast.Is: "is", ast.IsNot: "is not"}
